@@ -136,7 +136,7 @@ def inputs(ctx):
                     subsets.append(sorted(rng.sample(interior, size)))
         for kn in subsets:
             for _ in range(3):
-                items.append(("%s%d" % ("i" if isint else "k", k), P.tolist(), kn, rng.choice(LINKAGES), rng.choice([0.05, 0.1, 0.2, 0.5]), rng.choice(MODES)))
+                items.append(("%s%d" % ("i" if isint else "k", k), P.tolist(), kn, rng.choice(LINKAGES), rng.choice([0.05, 0.1, 0.2, 0.5, 0.5, 1.0, 1.5]), rng.choice(MODES)))     # t = 1 and t > 1 are valid thresholds
                 k += 1
     return items
 
@@ -163,7 +163,7 @@ def _selftests():
 
 def run(ctx):
     ctx.rule = ("curves n=8..80 (random families, adversarial, bundled-trace windows) x interior knee subsets (all sizes 2..5 "
-                "sampled for n<=10, random subsets and adjacent runs above) x 4 linkages x t in {0.05,0.1,0.2,0.5} x "
+                "sampled for n<=10, random subsets and adjacent runs above) x 4 linkages x t in {0.05,0.1,0.2,0.5,1,1.5} x "
                 "{left, linear, right, hull, corner variant}.  non-trivial: at least one multi-member cluster")
     ctx.assumptions += numeric.ASSUMPTIONS + [
         "cluster labels come from the same linkage function on points[knees] (C11 vouches for it); the ranking score is "
